@@ -160,7 +160,30 @@ def run(ctx):
     ctx.ob('C18.3', 'running critical path over children is a running maximum', bool(phis) and all(k == {'max'} for k in kinds.values()) and bool(kinds),
            'the loop-carried candidate for the critical path is only ever combined with max (adding children\'s paths would make the '
            'critical path exceed the work)', loc=a.loc, detail=str(kinds))
-    ctx.floor('C18.3', 12)
+    # the accumulation starts from zero: a summary node is recycled, so whatever it held before must not enter the sums
+    chain_loads = [l for l in a.loads_of('dr_dag_node_list.head')]
+    for name in ('t_1', 't_inf'):
+        z = [st for st in a.stores_to(INFO + name) if same_value(a, a.ap(st.ops[1]).root, s) and const_int(st.ops[0]) == 0]
+        adds = [st for st in a.stores_to(INFO + name) if same_value(a, a.ap(st.ops[1]).root, s) and const_int(st.ops[0]) is None]
+        ctx.ob('C18.3', '%s starts from zero' % name, len(z) >= 1 and bool(adds) and all(any(a.dominates_f(zz, st) for zz in z) for st in adds),
+               'the sum over the subgraphs starts at 0 (summary nodes are recycled)', loc=(z[0].loc if z else a.loc))
+    for name in ('logical_node_counts', 'logical_edge_counts'):
+        z = [st for st in a.stores_to(INFO + name) if same_value(a, a.ap(st.ops[1]).root, s) and const_int(st.ops[0]) == 0 and
+             lib.loop_containing(a, st) is not None]
+        adds = [st for st in a.stores_to(INFO + name) if same_value(a, a.ap(st.ops[1]).root, s) and const_int(st.ops[0]) is None]
+        okz = len(z) >= 1 and bool(adds) and all(st not in a.reachable_from(z[0]) or True for st in adds) and \
+            all(z[0] not in a.reachable_from(st) for st in adds)
+        # the zeroing loop runs over the whole array: its bound is the array length
+        okb = False
+        if z:
+            lpz = lib.loop_containing(a, z[0])
+            alen = (m.struct_field('dr_dag_node_info', name) or {}).get('nelem')
+            for ic in a.order:
+                if ic.op == 'icmp' and ic.pred in ('slt', 'ult') and ic.block.id == lpz['header'] and const_int(ic.ops[1]) == alen:
+                    okb = True
+        ctx.ob('C18.3', '%s zeroed over its whole length before accumulating' % name, okz and okb,
+               'every counter of the summary starts at 0', loc=(z[0].loc if z else a.loc))
+    ctx.floor('C18.3', 16)
     rule4_edges(ctx, m, a, s)
 
 
@@ -241,6 +264,25 @@ def rule4_edges(ctx, m, a, s):
                             is_create = True
         for k in kinds:
             (per_create if is_create else seq).setdefault(k, []).append(c)
+    # successor edges connect the last leaf of child x with the first leaf of child x+1, and the output cursor moves on
+    # after every edge
+    lasts = call_sites(e, 'dr_pi_dag_node_last')
+    firsts = call_sites(e, 'dr_pi_dag_node_first')
+    esz = (d.structs.get('dr_pi_dag_node') or {}).get('size')
+    nb = False
+    for la in lasts:
+        for fi in firsts:
+            dd = lib.affine_diff(e, fi.args[0], la.args[0])
+            if dd == {'': esz} and la.block.id == fi.block.id:
+                nb = True
+    ctx.ob('C18.4', 'successor edge runs from last(x) to first(x + 1)', nb and bool(esz), 'adjacent children of the same subgraph', loc=e.loc,
+           detail='node size %s' % esz)
+    edsz = (d.structs.get('dr_pi_dag_edge') or {}).get('size')
+    for c in calls:
+        nxt = [g_ for g_ in e.order if g_.op == 'getelementptr' and g_.d.get('coff') == edsz and lib.same_expr(e, g_.d['base'], c.args[0])]
+        others = [x for x in calls if x is not c]
+        ctx.ob('C18.4', 'output cursor advances after the edge', bool(nxt) and e.always_passes(c, nxt, to=others + [c] + e.exits()),
+               'e++ after every dr_pi_dag_add_edge: an edge written over the previous one loses it', loc=c.loc)
     emitted = set(per_create) | set(seq)
     counted = set(acc)
     for k in sorted(emitted | counted):
@@ -323,7 +365,7 @@ def rule4_edges(ctx, m, a, s):
                    'totals by kind are sums over all contracted nodes plus the explicit edges (an assignment keeps only the last node)',
                    loc=st.loc, detail=expr_str(ce, st.ops[0]))
     ctx.ob('C18.4', 'dr_calc_edges accumulates from contracted nodes and explicit edges', n_acc >= 3, 'three accumulation sites', loc=ce.loc)
-    ctx.floor('C18.4', 22)
+    ctx.floor('C18.4', 28)
     rule5_sections(ctx)
 
 
@@ -371,7 +413,46 @@ def rule5_sections(ctx):
         ctx.ob('C18.5', '%s opens the next interval with in-edge kind in %s' % (ret, sorted(kinds)), bool(sts) and vals == want,
                'the kind recorded on the successor interval is the kind the accumulator counts for a %s element' % x, loc=fr.loc,
                detail=str(sorted(str(v) for v in vals)))
-    ctx.floor('C18.5', 12)
+    # dr_task_ensure_section opens a section exactly when the task has none open, and hands back the open one
+    es = ctx.need_fn(m, 'dr_task_ensure_section')
+    pb = call_sites(es, 'dr_push_back_section')
+    act = call_sites(es, 'dr_task_active_node')
+    tpar = es.params[0]['id']
+    okg = False
+    for ic in es.order:
+        if ic.op == 'icmp' and ic.pred in ('eq', 'ne') and not lib.affine_diff(es, ic.ops[0], ic.ops[1]) == {} :
+            d_ = set(es.sources(ic.ops[0])) | set(es.sources(ic.ops[1]))
+            if tpar in d_ and any(c.id in d_ for c in act):
+                for br in es.users(ic.id):
+                    if br.op == 'br' and 'cond' in br.d and pb:
+                        yes, no = (br.d['t'], br.d['f']) if ic.pred == 'eq' else (br.d['f'], br.d['t'])
+                        if es.edge_dominates(br.block.id, yes, pb[0]) and pb[0] not in es.reachable_from(lib.first_inst(es, no), include_start=True):
+                            okg = True
+    ctx.ob('C18.5', 'ensure_section opens a section exactly when the active node is the task itself', len(pb) == 1 and okg,
+           'if (active == t) s = push_back_section(t, t)', loc=es.loc)
+    rets = [r for r in es.exits() if r.ops]
+    ctx.ob('C18.5', 'ensure_section returns the open section', bool(rets) and all(
+        set(k for k in es.sources(r.ops[0]) if not k.startswith('{')) <= set([c.id for c in act] + [c.id for c in pb]) for r in rets),
+        'the freshly opened section or the one already active', loc=es.loc)
+    ps = ctx.need_fn(m, 'dr_push_back_section')
+    news = call_sites(ps, 'dr_dag_node_list_push_back')
+    inits = call_sites(ps, 'dr_dag_node_init_section_or_task')
+    sec = ctx.need_enum(en, 'dr_dag_node_kind_section')
+    okn = len(news) == 1 and len(inits) == 1 and same_value(ps, inits[0].args[0], news[0].id) and const_int(inits[0].args[1]) == sec and \
+        same_value(ps, inits[0].args[2], ps.params[1]['id'])
+    ctx.ob('C18.5', 'push_back_section initialises the new node as a section under its parent', okn,
+           'dr_dag_node_init_section_or_task(new_s, section, s)', loc=ps.loc)
+    acts = [st for st in ps.stores_to('dr_dag_node.parent_section|active_section') if news and same_value(ps, st.ops[0], news[0].id) and
+            same_value(ps, ps.ap(st.ops[1]).root, ps.params[0]['id'])]
+    ctx.ob('C18.5', 'push_back_section makes the new section the active one', len(acts) == 1, 't->active_section = new_s', loc=ps.loc)
+    # every resumption point re-establishes the worker's current task
+    for ret in ('dr_return_from_create_task__', 'dr_return_from_wait_tasks__', 'dr_return_from_other__'):
+        fr = ctx.need_fn(m, ret)
+        sc = call_sites(fr, 'dr_set_cur_task_')
+        oks = len(sc) == 1 and same_value(fr, sc[0].args[1], fr.params[0]['id'])
+        ctx.ob('C18.5', '%s makes the resumed task the worker\'s current task' % ret, oks,
+               'the task may resume on another worker: dr_set_cur_task_(wss, t) with the task handed in', loc=fr.loc)
+    ctx.floor('C18.5', 19)
 
 
 def deps(f, ref):
@@ -457,6 +538,18 @@ MUTANTS = [
                 "      /* ensure t has a session */\n      dr_dag_node * s = dr_task_ensure_section(t, wss->freelist);\n      /* add a new node as a child of s */\n      dr_dag_node * i\n")]},
     {'name': 'return from other marks the successor as create-cont', 'expect': 'C18.5',
      'edits': [(INL, "t->info.in_edge_kind = dr_dag_edge_kind_other_cont;", "t->info.in_edge_kind = dr_dag_edge_kind_create_cont;")]},
+    {'name': 'work accumulator not reset (sweep M0008)', 'expect': 'C18.3',
+     'edits': [(INL, "      s->info.t_1     = 0;\n      s->info.t_inf   = 0;", "      s->info.t_inf   = 0;")]},
+    {'name': 'ensure_section never opens a section (sweep M0151)', 'expect': 'C18.5',
+     'edits': [(INL, "      s = dr_push_back_section(t, s, fl);\n    }\n    (void)dr_check(s->info.kind == dr_dag_node_kind_section);", "      ;\n    }\n    (void)dr_check(s->info.kind == dr_dag_node_kind_section);")]},
+    {'name': 'push_back_section does not make the section active (sweep M0109)', 'expect': 'C18.5',
+     'edits': [(INL, "      t->active_section = new_s;\n      (void)dr_check(dr_task_active_node(t) == t->active_section);\n      return new_s;", "      return new_s;")]},
+    {'name': 'resumed task not made current (sweep M0125)', 'expect': 'C18.5',
+     'edits': [(INL, "      (void)dr_check(rt->info.kind == dr_dag_node_kind_other);\n      /* set this worker's current task */\n      dr_set_cur_task_(wss, t);", "      (void)dr_check(rt->info.kind == dr_dag_node_kind_other);")]},
+    {'name': 'successor edge targets the same child (sweep M0088)', 'expect': 'C18.4',
+     'edits': [('src/profiler/dr_dump.c', "dr_pi_dag_node * t = dr_pi_dag_node_first(x + 1, G);", "dr_pi_dag_node * t = dr_pi_dag_node_first(x, G);")]},
+    {'name': 'end edge overwritten by the next edge (sweep M0090)', 'expect': 'C18.4',
+     'edits': [('src/profiler/dr_dump.c', "\t      dr_pi_dag_add_edge(e, E_lim, dr_dag_edge_kind_end, w - T, t - T);\n\t      e++;", "\t      dr_pi_dag_add_edge(e, E_lim, dr_dag_edge_kind_end, w - T, t - T);")]},
     {'name': 'edge counts of created tasks dropped', 'expect': 'C18.3',
      'edits': [(INL, "            for (k = 0; k < dr_dag_edge_kind_max; k++) {\n              s->info.logical_edge_counts[k] += c->info.logical_edge_counts[k];\n            }\n", "")]},
 ]
